@@ -212,6 +212,14 @@ def stepCodec (st : State) (toks : List String) : State × String :=
       let (b, c) := Codec.encodeRecord (codecCfg ver) Codec.oxiaCrc prev payload
       (st, Hex.encode b ++ " " ++ toString (if ver == "1" then 0 else c))
     | _, _ => (st, "bad-op")
+  | "cw.stale" :: rest =>
+    -- the list model of the WAL across a crash: the damaged uncommitted entry and everything behind it are
+    -- gone, the appended entry follows, a restart changes nothing
+    match ((DbProto.kvOf rest "tear").getD "").toInt?, ((DbProto.kvOf rest "commit").getD "").toInt? with
+    | some tear, some commit =>
+      if tear ≤ commit then (st, "err:corrupt")
+      else (st, "first=" ++ toString (tear - 1) ++ " second=" ++ toString tear)
+    | _, _ => (st, "bad-op")
   | "cw.power" :: rest =>
     -- a syncing WAL (`Sync` = msync of what has been appended): what the WAL reports as synced after the
     -- script is what a power failure leaves, whatever the segment boundaries: the last entry appended
